@@ -140,3 +140,37 @@ func zzH_c18_encodeLength() {
 	}
 	vReach("end")
 }
+
+// H18-ber-longform: objects whose length is given in long form with up to 9 length octets
+// (the short buffers of the other BER harnesses cannot hold the 8-octet forms): value or
+// error, no panic, bounded loops — including lengths that are negative or overflow as int.
+//
+//verif:property C18
+//verif:expect-reach end
+//verif:bound buffer length 10 or 12 (quick) / each of 6..13 (thorough); length-of-length octet 0x84, 0x88 or 0x89 (quick) / 0x81..0x89 (thorough); tag octet and all length/content octets symbolic; quick: primitive tags only; thorough adds constructed tags and the nested variant 30 LL 30 8x ...
+//verif:unwind 40
+//verif:nomerge
+func zzH_c18_ber_longform() {
+	var L int
+	var lo byte
+	if vTier() == 0 {
+		L = []int{10, 12}[vChoice("L", 2)]
+		lo = []byte{0x84, 0x88, 0x89}[vChoice("lo", 3)]
+	} else {
+		L = 6 + vChoice("L", 8)
+		lo = 0x81 + byte(vChoice("lo", 9))
+	}
+	b := vBytes("b", L, L)
+	if vTier() == 1 && vChoice("nested", 2) == 1 {
+		b[0], b[1], b[2], b[3] = 0x30, byte(L-2), 0x30, lo
+	} else {
+		// a primitive tag keeps the quick tier out of the recursive descent
+		b[0] &^= 0x20
+		b[1] = lo
+	}
+	out, err := ber2der(b)
+	if err == nil {
+		vAssert("accepted-output-nonempty", len(out) > 0)
+	}
+	vReach("end")
+}
